@@ -54,3 +54,27 @@ func (c *Cache) VerifC05PrefetchBusy() int {
 	})
 	return n
 }
+
+// VerifC05LiveSizes counts the answer-cache entries a query can still be
+// served from (not expired), positive and negative. Stats()'s *_size counts
+// include entries that ran out but were not looked up since (eviction is lazy:
+// a lookup that finds an expired entry deletes it), so those sizes depend on
+// which expired entries happened to be touched — not on what is cached.
+// Read-only; call at a quiescent point.
+func (c *Cache) VerifC05LiveSizes() (positive, negative int64) {
+	if c == nil || c.store == nil {
+		return 0, 0
+	}
+	c.store.ForEach(func(pos bool, _ uint64, e *CacheEntry) bool {
+		if e == nil || e.IsExpired() {
+			return true
+		}
+		if pos {
+			positive++
+		} else {
+			negative++
+		}
+		return true
+	})
+	return positive, negative
+}
